@@ -175,6 +175,15 @@ fn forgeries(ctx: &mut Ctx, smp: &Sample, p: &mut Prng, base_idx: &mut u64) {
         }
         probe(ctx, smp, &smp.ks, &smp.id, &smp.msg, &hv, &s_lib, Some(&smp.s), name);
     }
+    // alias of the valid h modulo N (fits in 256 bits for ~40% of signatures: N ~ 0.71 * 2^256)
+    if mine(ctx) {
+        let two256: BigUint = BigUint::one() << 256;
+        if &smp.h + &pr.n < two256 {
+            probe(ctx, smp, &smp.ks, &smp.id, &smp.msg, &(&smp.h + &pr.n), &s_lib, Some(&smp.s), "h+N_alias");
+        } else {
+            ctx.class("h+N_does_not_fit");
+        }
+    }
     // S replaced
     let others: Vec<(&str, Option<(BigUint, BigUint)>)> = vec![
         ("S=-S", r9::g1_neg(&Some(smp.s.clone()))),
@@ -236,7 +245,7 @@ pub fn run(ctx: &mut Ctx) {
     for (n, ok) in r9::selftest(false) {
         ctx.selftest(&n, ok);
     }
-    ctx.require(&["annex_kat", "fixed_r_exact", "free_r", "ref_made_accepted", "bitflip_h", "bitflip_h_ge_N", "bitflip_S", "h=0", "h=N-1", "h=N", "h=2^256-1", "S=-S", "S=offcurve_y_plus_1", "S=(0,0)", "S=infinity", "S_rerandomised_Z", "msg_changed", "id_changed", "master_key_changed", "msg_empty", "id_empty"]);
+    ctx.require(&["annex_kat", "fixed_r_exact", "free_r", "ref_made_accepted", "bitflip_h", "bitflip_h_ge_N", "bitflip_S", "h=0", "h=N-1", "h=N", "h=2^256-1", "h+N_alias", "S=-S", "S=offcurve_y_plus_1", "S=(0,0)", "S=infinity", "S_rerandomised_Z", "msg_changed", "id_changed", "master_key_changed", "msg_empty", "id_empty", "ks=H1(id)_doubling_in_verify"]);
     let pr = r9::params();
     // --- Annex example
     if ctx.shard == 0 {
@@ -266,6 +275,13 @@ pub fn run(ctx: &mut Ctx) {
             ctx.class("msg_empty");
         }
         let r = if i % 6 == 0 { &pr.n - 2u32 - BigUint::from(i % 4) } else { rand_scalar(&mut p, &(&pr.n - 1u32)) };
+        // crafted master key ks = H1(ID||01): the verifier's [h1]P2 + Ppub-s is then a doubling
+        let ks = if i % 8 == 3 {
+            ctx.class("ks=H1(id)_doubling_in_verify");
+            r9::h1(&id, r9::HID_SIGN)
+        } else {
+            ks
+        };
         if i % 2 == 0 {
             sign_case(ctx, &ks, &id, &msg, Some(&r), "positive");
         } else {
@@ -285,9 +301,22 @@ pub fn run(ctx: &mut Ctx) {
         let id = prng.bytes(idl);
         let ml = prng.range(0, 60);
         let msg = prng.bytes(ml);
-        let r = rand_scalar(&mut prng, &(&pr.n - 1u32));
+        let mut r = rand_scalar(&mut prng, &(&pr.n - 1u32));
         let sub = prng.next();
-        let Some((h, s)) = r9::sign(&ks, &id, &msg, &r) else { continue };
+        let Some((mut h, mut s)) = r9::sign(&ks, &id, &msg, &r) else { continue };
+        if i % 2 == 0 {
+            // every other sample: a signature whose h + N still fits in 256 bits
+            let two256: BigUint = BigUint::one() << 256;
+            let mut tries = 0;
+            while &h + &pr.n >= two256 && tries < 20 {
+                tries += 1;
+                r = rand_scalar(&mut prng, &(&pr.n - 1u32));
+                if let Some((h2, s2)) = r9::sign(&ks, &id, &msg, &r) {
+                    h = h2;
+                    s = s2;
+                }
+            }
+        }
         let smp = Sample { ks, id, msg, h, s };
         let mut p = Prng::new(sub, "f");
         forgeries(ctx, &smp, &mut p, &mut idx);
